@@ -196,9 +196,9 @@ Proof.
   - inv H. discriminate.
   - cbn in L. apply andb_true_iff in L. destruct L as [L1 L2]. apply andb_true_iff in L1. destruct L1 as [L1 L0].
     destruct (ev c st) as [o st1] eqn:Ec. destruct o; try discriminate.
-    destruct (is_nil v0); [eapply IH; eauto|].
-    eapply (m_seq_mv ev never Hev eq_refl b v0 st1 v st' L1); [|exact H].
-    intros ->. eapply Hev; [exact L0 | exact Ec].
+    destruct (is_nil (prim v0)); [eapply IH; eauto|].
+    eapply (m_seq_mv ev never Hev eq_refl b (prim v0) st1 v st' L1); [|exact H].
+    intros _. destruct v0; discriminate.
 Qed.
 
 Lemma m_items_none : forall ev evt items skip st r st',
@@ -227,11 +227,9 @@ Proof.
     + destruct (m_args (meval defs n sc tb) args [] st) as [[o|vs] st1] eqn:E; inv H.
       * exfalso. eapply m_args_inl; eauto.
       * apply mk_list_mv.
-    + destruct (m_args (meval defs n sc tb) body [] st) as [[o|vs] st1] eqn:E; inv H.
-      * exfalso. eapply m_args_inl; eauto.
-      * apply last_mv. eapply m_args_mv; [| exact E]. constructor.
+    + eapply m_progn_mv; [apply IH | | exact MV | exact H]; reflexivity.
     + destruct (meval defs n sc tb f st) as [o st1]. destruct o; try discriminate.
-      destruct (is_nil v0); [inv H; discriminate|].
+      destruct (is_nil (prim v0)); [inv H; discriminate|].
       eapply m_progn_mv; [apply IH | | exact MV | exact H]; reflexivity.
     + eapply m_cond_mv; eauto.
     + destruct (m_args (meval defs n sc tb) inits [] st) as [[o|vs] st1] eqn:E;
@@ -431,16 +429,15 @@ Section Rel.
   Proof.
     intros pb R G H0 H2. induction cs as [|[c b] cs IH]; intros st o st' Gd HS NO.
     - cbn in HS. inv HS. eexists. split; [reflexivity|]. split; [reflexivity | exact I].
-    - cbn [g_clauses] in Gd. repeat (apply andb_true_iff in Gd; destruct Gd as [Gd ?]).
+    - cbn [g_clauses] in Gd. apply andb_true_iff in Gd. destruct Gd as [Gd Gcs]. apply andb_true_iff in Gd. destruct Gd as [Gd Gb].
+      apply andb_true_iff in Gd. destruct Gd as [Gc Gne].
       cbn [s_cond] in HS. destruct (es c st) as [o1 st1] eqn:E.
       assert (NO1 : o1 <> OOF) by (intro; subst; inv HS; congruence).
-      destruct (H0 c H4 st o1 st1 E NO1) as (r0 & EM & RL & EX).
+      destruct (H0 c Gc st o1 st1 E NO1) as (r0 & EM & RL & EX).
       pose proof (rel_inv _ _ RL (Hclean _ _ _ _ E)) as RI.
       cbn [m_cond]. rewrite EM. destruct o1; cbn in EX; try discriminate.
       + destruct RI as (vm & -> & Nv & Mk & Pv).
-        assert (vm = v).
-        { pose proof (Hmv _ _ _ _ Gd EM) as NV. destruct vm; cbn in *; try congruence. }
-        subst vm. destruct (is_nil v).
+        rewrite Pv. destruct (is_nil v).
         * eapply IH; eauto.
         * destruct b; [discriminate|]. change (m_seq em never (f :: b) v st1) with (m_seq em never (f :: b) VNil st1). eapply progn_rel; eauto.
       + subst r0. inv HS. eexists. split; [reflexivity|]. split; [reflexivity | exact I].
@@ -545,48 +542,7 @@ Section Rel.
   Qed.
 End Rel.
 
-(* progn.go: the forms are ordinary arguments (all evaluated, first values), the result is the last one *)
-Lemma progn_args_rel : forall em es, sclean es -> forall pb R G,
-  (forall f, gd pb [] [] f = true -> related em es [] [] f) ->
-  (forall f, gd pb R G f = true -> related em es R G f) ->
-  forall fs acc ls st o st', g_seq gd pb [] [] R G fs = true -> last_val (rev acc) = ls -> cleanb ls = true ->
-  s_seq es fs ls st = (o, st') -> o <> OOF ->
-  exists r, match m_args em fs acc st with
-            | (inr vs, s1) => (MVal (last_val vs), s1)
-            | (inl x, s1) => (x, s1)
-            end = (r, st') /\ norm_res r = to_mres o /\ exits_ok R G o.
-Proof.
-  intros em es Hclean pb R G H1 H2. induction fs as [|f r IH]; intros acc ls st o st' Gd LV CL HS NO.
-  - cbn in HS. inv HS. cbn. eexists. split; [reflexivity|]. split; [| exact I].
-    cbn. rewrite (clean_norm _ CL). reflexivity.
-  - assert (LL : forall x, last_val (rev (x :: acc)) = x).
-    { intro x. unfold last_val. cbn. apply last_last. }
-    destruct r as [|f2 r2].
-    + cbn in Gd. cbn in HS. destruct (es f st) as [o1 st1] eqn:E.
-      assert (o = o1 /\ st' = st1) as [-> ->] by (destruct o1; inv HS; auto).
-      destruct (H2 f Gd st o1 st1 E NO) as (r0 & EM & RL & EX).
-      pose proof (rel_inv _ _ RL (Hclean _ _ _ _ E)) as RI.
-      cbn [m_args]. rewrite EM. destruct o1.
-      * destruct RI as (vm & -> & Nv & Mk & Pv). cbn [m_args]. rewrite LL, Pv. eexists. split; [reflexivity|].
-        split; [| exact I]. cbn. rewrite (clean_norm _ (Hclean _ _ _ _ E)). reflexivity.
-      * destruct RI as (vm & -> & Nv). cbn [m_args prim]. rewrite LL. eexists. split; [reflexivity|]. split; [| exact EX].
-        cbn. rewrite Nv. reflexivity.
-      * subst r0. cbn [m_args prim]. rewrite LL. eexists. split; [reflexivity|]. split; [reflexivity | exact EX].
-      * subst r0. eexists. split; [reflexivity|]. split; [reflexivity | exact I].
-      * subst r0. eexists. split; [reflexivity|]. split; [reflexivity | exact I].
-      * congruence.
-    + cbn [g_seq] in Gd. apply andb_true_iff in Gd. destruct Gd as [Gf Gr].
-      cbn [s_seq] in HS. destruct (es f st) as [o1 st1] eqn:E.
-      assert (NO1 : o1 <> OOF) by (intro; subst; inv HS; congruence).
-      destruct (H1 f Gf st o1 st1 E NO1) as (r0 & EM & RL & EX).
-      pose proof (rel_inv _ _ RL (Hclean _ _ _ _ E)) as RI.
-      cbn [m_args]. rewrite EM. destruct o1; cbn in EX; try discriminate.
-      * destruct RI as (vm & -> & Nv & Mk & Pv).
-        eapply (IH (prim vm :: acc) v); [exact Gr | rewrite LL; exact Pv | exact (Hclean _ _ _ _ E) | exact HS | exact NO].
-      * subst r0. inv HS. eexists. split; [reflexivity|]. split; [reflexivity | exact I].
-      * subst r0. inv HS. eexists. split; [reflexivity|]. split; [reflexivity | exact I].
-      * congruence.
-Qed.
+(* progn.go (after repo_fixes/C01-10) evaluates its forms itself: progn is progn_rel (m_seq never), like the body of when *)
 
 (* ---- contexts ---------------------------------------------------------------------------------------- *)
 (* what ties the guard's sets to the two evaluators' contexts: a block in R is on the scope chain InBlock
@@ -665,17 +621,16 @@ Proof.
         rewrite X by discriminate. eexists. split; [reflexivity|]. split; [| exact I].
         cbn. rewrite (clean_norm _ (clean_mk_list vs)). reflexivity.
     + (* Progn *)
-      eapply (progn_args_rel _ _ (CL bl tg) pb R G IH0 IHRG body [] VNil); eauto.
+      eapply progn_rel; eauto.
     + (* When *)
-      apply andb_true_iff in Gd. destruct Gd as [Gd G3]. apply andb_true_iff in Gd. destruct Gd as [G1 G2].
+      apply andb_true_iff in Gd. destruct Gd as [G2 G3].
       destruct (seval defs n bl tg f st) as [o1 st1] eqn:E.
       assert (NO1 : o1 <> OOF) by (intro; subst; inv HS; congruence).
       destruct (IH0 f G2 st o1 st1 E NO1) as (r0 & EM & RL & EX).
       pose proof (rel_inv _ _ RL (CL _ _ _ _ _ _ E)) as RI.
       rewrite EM. destruct o1; cbn in EX; try discriminate.
       * destruct RI as (vm & -> & Nv & Mk & Pv).
-        assert (vm = v) by (pose proof (MV sc tb _ _ _ _ G1 EM); destruct vm; cbn in *; congruence).
-        subst vm. destruct (is_nil v); [inv HS; fin|].
+        rewrite Pv. destruct (is_nil v); [inv HS; fin|].
         eapply progn_rel; eauto.
       * try subst r0. inv HS. fin.
       * try subst r0. inv HS. fin.
